@@ -8,6 +8,7 @@ in this path, under which conditions does this statement run), never about spell
 from __future__ import annotations
 
 import ast
+import re
 from typing import Dict, Iterator, List, Optional, Sequence, Set, Tuple
 
 from .pymodel import call_name
@@ -182,9 +183,17 @@ def tests_first_char(test: ast.AST, var: str, ch: str) -> bool:
                         isinstance(a.value, ast.Name) and a.value.id == var and ast.unparse(a.slice) in ("0", ":1"):
                     return True
         if isinstance(n, ast.Call) and isinstance(n.func, ast.Attribute) and n.func.attr == "startswith" and \
-                isinstance(n.func.value, ast.Name) and n.func.value.id == var and n.args and \
-                isinstance(n.args[0], ast.Constant) and n.args[0].value == ch:
+                isinstance(n.func.value, ast.Name) and n.func.value.id == var and n.args and _const_has(n.args[0], ch):
             return True
+    return False
+
+
+def _const_has(e: ast.AST, ch: str) -> bool:
+    """the constant `ch`, or a tuple of constants that contains it (str.startswith / endswith accept both)"""
+    if isinstance(e, ast.Constant):
+        return e.value == ch
+    if isinstance(e, ast.Tuple):
+        return any(isinstance(x, ast.Constant) and x.value == ch for x in e.elts)
     return False
 
 
@@ -197,8 +206,7 @@ def tests_last_char(test: ast.AST, var: str, ch: str) -> bool:
                         isinstance(a.value, ast.Name) and a.value.id == var and ast.unparse(a.slice) in ("-1", "-1:"):
                     return True
         if isinstance(n, ast.Call) and isinstance(n.func, ast.Attribute) and n.func.attr == "endswith" and \
-                isinstance(n.func.value, ast.Name) and n.func.value.id == var and n.args and \
-                isinstance(n.args[0], ast.Constant) and n.args[0].value == ch:
+                isinstance(n.func.value, ast.Name) and n.func.value.id == var and n.args and _const_has(n.args[0], ch):
             return True
     return False
 
@@ -424,7 +432,13 @@ def trace(fn: ast.AST, resolve=None, max_depth: int = 2) -> List[Event]:
                         for tg in tgts:      # a = b = v assigns both
                             events.append(Event("assign", st, conds, protected, subst, f, depth, target=ast.unparse(tg), value=val, loops=loops))
                 elif isinstance(st, ast.Expr):
-                    expr_events(st.value, conds, protected, loops=loops)
+                    if isinstance(st.value, ast.Constant) and isinstance(st.value.value, str) and st.value.value.startswith("<inlined> "):
+                        # marker left by sa/inline.py in front of an expanded helper: reported like a call of the helper
+                        nm = st.value.value[len("<inlined> "):]
+                        fake = ast.copy_location(ast.Call(func=ast.Name(id=nm, ctx=ast.Load()), args=[], keywords=[]), st)
+                        events.append(Event("call", fake, conds, protected, subst, f, depth, loops=loops))
+                    else:
+                        expr_events(st.value, conds, protected, loops=loops)
                 elif isinstance(st, (ast.Continue, ast.Break)):
                     events.append(Event("jump", st, conds, protected, subst, f, depth, loops=loops))
                 else:
@@ -550,10 +564,23 @@ class ElemSources:
             return {f"attr:{e.attr}"}
         if isinstance(e, (ast.ListComp, ast.GeneratorExp, ast.SetComp)) and len(e.generators) == 1:
             g = e.generators[0]
-            if isinstance(g.target, ast.Name) and isinstance(e.elt, ast.Name) and e.elt.id == g.target.id:
+            def projection(x: ast.AST) -> bool:
+                """x is the loop variable or something read off it alone (`entry.name`, `str(p)`, `p.lower()`): its
+                provenance is that of the iterated collection"""
+                if isinstance(x, ast.Name):
+                    return x.id == g.target.id
+                if isinstance(x, ast.Attribute):
+                    return projection(x.value)
+                if isinstance(x, ast.Call) and isinstance(x.func, ast.Attribute) and not x.args and not x.keywords:
+                    return projection(x.func.value)
+                if isinstance(x, ast.Call) and call_name(x) in ("str", "os.fspath", "os.path.basename", "Path", "pathlib.Path") and \
+                        len(x.args) == 1 and not x.keywords:
+                    return projection(x.args[0])
+                return False
+            if isinstance(g.target, ast.Name) and projection(e.elt):
                 for c in g.ifs:
                     t = self._membership(c, g.target.id)
-                    if t is not None:
+                    if t is not None and isinstance(e.elt, ast.Name):
                         return rec(t)
                 return rec(g.iter)
             return {"?"}
@@ -732,3 +759,160 @@ def truth_table(expr: ast.AST, atom, n_atoms_max: int = 6):
     for bits in itertools.product((False, True), repeat=len(names)):
         table[bits] = ev(expr, dict(zip(names, bits)))
     return names, table
+
+
+def eval_cond(e: ast.AST, atom, env: Dict[str, bool]) -> Optional[bool]:
+    """three-valued evaluation of a condition: `atom(node)` maps a recognised sub-expression to (name, polarity); atoms not
+    in env, and anything that is neither a connective nor an atom, are unknown (None)"""
+    a = atom(e)
+    if a is not None:
+        v = env.get(a[0])
+        return None if v is None else (v == a[1])
+    if isinstance(e, ast.Constant) and isinstance(e.value, bool):
+        return e.value
+    if isinstance(e, ast.UnaryOp) and isinstance(e.op, ast.Not):
+        v = eval_cond(e.operand, atom, env)
+        return None if v is None else not v
+    if isinstance(e, ast.BoolOp):
+        vals = [eval_cond(v, atom, env) for v in e.values]
+        if isinstance(e.op, ast.And):
+            if any(v is False for v in vals):
+                return False
+            return True if all(v is True for v in vals) else None
+        if any(v is True for v in vals):
+            return True
+        return False if all(v is False for v in vals) else None
+    return None
+
+
+def event_fires(ev: "Event", atom, env: Dict[str, bool]) -> Optional[bool]:
+    """does the event run under the truth assignment env?  (False if some condition is false, True if all are true,
+    None if it depends on something else)"""
+    res: Optional[bool] = True
+    for test, pol, _subst in ev.conds:
+        v = eval_cond(test, atom, env)
+        if v is None:
+            res = None if res is not False else res
+            continue
+        if v != pol:
+            return False
+    return res
+
+
+def base_name(name: str) -> str:
+    """local names of inlined helpers carry the suffix `__<helper>` (sa/inline.py); the name the author wrote"""
+    return re.sub(r"(?<=[A-Za-z0-9])__[A-Za-z0-9_]+$", "", name)
+
+
+def alternatives(expr: ast.AST, fn: ast.AST, depth: int = 3) -> List[Tuple[ast.AST, List[Tuple[ast.AST, bool]]]]:
+    """the values `expr` can take, each with the conditions under which it does: locals that are assigned exactly once are
+    replaced by their value, conditional expressions are split into their two branches, and `"" + x` is x.
+    [(expression, [(test, polarity), ...]), ...]"""
+    import copy as _copy
+
+    def single_defs() -> Dict[str, ast.AST]:
+        cnt: Dict[str, List[ast.AST]] = {}
+        for n in ast.walk(fn):
+            if isinstance(n, ast.Assign):
+                for t in n.targets:
+                    if isinstance(t, ast.Name):
+                        cnt.setdefault(t.id, []).append(n.value)
+            elif isinstance(n, (ast.AugAssign, ast.AnnAssign)) and isinstance(n.target, ast.Name):
+                cnt.setdefault(n.target.id, []).append(None)
+            elif isinstance(n, (ast.For, ast.comprehension)):
+                for x in ast.walk(n.target):
+                    if isinstance(x, ast.Name):
+                        cnt.setdefault(x.id, []).append(None)
+        return {k: v[0] for k, v in cnt.items() if len(v) == 1 and v[0] is not None}
+    defs = single_defs()
+
+    class Sub(ast.NodeTransformer):
+        def visit_Name(self, n):
+            if isinstance(n.ctx, ast.Load) and n.id in defs:
+                return _copy.deepcopy(defs[n.id])
+            return n
+    e = _copy.deepcopy(expr)
+    for _ in range(depth):
+        e = Sub().visit(e)
+
+    # identity-preserving replacement: work on a fresh copy per IfExp
+    def split2(x: ast.AST):
+        ifs = [n for n in ast.walk(x) if isinstance(n, ast.IfExp)]
+        if not ifs:
+            return [(x, [])]
+        n = ifs[0]
+        res = []
+        for pol in (True, False):
+            y = (n.body if pol else n.orelse) if x is n else None
+            if y is None:
+                # deep copy while remembering which copy corresponds to n
+                memo: Dict[int, ast.AST] = {}
+                xc = _copy.deepcopy(x, memo)
+                nc = memo[id(n)]
+
+                class R2(ast.NodeTransformer):
+                    def visit_IfExp(self, m):
+                        if m is nc:
+                            return m.body if pol else m.orelse
+                        return self.generic_visit(m)
+                y = R2().visit(xc)
+            for z, cs in split2(y):
+                res.append((z, [(n.test, pol)] + cs))
+        return res
+
+    def simplify(x: ast.AST) -> ast.AST:
+        class S(ast.NodeTransformer):
+            def visit_BinOp(self, b):
+                self.generic_visit(b)
+                if isinstance(b.op, ast.Add):
+                    if isinstance(b.left, ast.Constant) and b.left.value == "":
+                        return b.right
+                    if isinstance(b.right, ast.Constant) and b.right.value == "":
+                        return b.left
+                return b
+        return S().visit(x)
+    return [(simplify(z), cs) for z, cs in split2(e)]
+
+
+def path_implies(ev: "Event", atom, want: Dict[str, bool], max_atoms: int = 10) -> Optional[bool]:
+    """Do the conditions under which the event runs imply `want` (atom name -> value)?  Decided by enumerating the truth
+    assignments of all atomic propositions that occur in the conditions: `atom(node)` names the ones the caller knows
+    ((name, polarity)), every other non-connective sub-expression is a free proposition of its own.  None if there are too
+    many atoms."""
+    import itertools
+    free: Dict[str, None] = {}
+
+    def full_atom(e):
+        a = atom(e)
+        if a is not None:
+            return a
+        if isinstance(e, (ast.BoolOp,)) or (isinstance(e, ast.UnaryOp) and isinstance(e.op, ast.Not)) or \
+                (isinstance(e, ast.Constant) and isinstance(e.value, bool)):
+            return None
+        return ("?" + ast.unparse(e), True)
+
+    def collect(e):
+        a = full_atom(e)
+        if a is not None:
+            free.setdefault(a[0])
+            return
+        if isinstance(e, ast.BoolOp):
+            for v in e.values:
+                collect(v)
+        elif isinstance(e, ast.UnaryOp):
+            collect(e.operand)
+    for t, _p, _s in ev.conds:
+        collect(t)
+    for k in want:
+        free.setdefault(k)
+    names = list(free)
+    if len(names) > max_atoms:
+        return None
+    some = False
+    for bits in itertools.product((False, True), repeat=len(names)):
+        env = dict(zip(names, bits))
+        if all(eval_cond(t, full_atom, env) == p for t, p, _s in ev.conds):
+            some = True
+            if any(env[k] != v for k, v in want.items()):
+                return False
+    return True if some else None
